@@ -522,13 +522,22 @@ fn pick_thread_arg(rng: &mut Rng, cur: Option<u32>) -> Option<u32> {
 }
 
 fn pick_bp(rng: &mut Rng, file: u32) -> BpSpec {
-    let (f, s, e) = if rng.chance(2, 3) {
+    // mostly a span of the requested file (the adapter always does that): a statement span or a
+    // near miss; sometimes a span of another file registered under this file id
+    let pool: Vec<(u32, u32, u32)> = LOCS
+        .iter()
+        .chain(BP_EXTRA.iter())
+        .filter(|(f, _, _)| *f == file)
+        .copied()
+        .collect();
+    let (f, s, e) = if !pool.is_empty() && rng.chance(7, 8) {
+        *rng.pick(&pool)
+    } else if rng.chance(1, 2) {
         *rng.pick(&LOCS)
     } else {
-        *rng.pick(&BP_EXTRA)
+        let (_, s, e) = *rng.pick(&LOCS);
+        (file, s, e)
     };
-    // mostly the requested file (the adapter always does that); sometimes another one
-    let f = if rng.chance(7, 8) { file } else { f };
     let hit = match rng.below(10) {
         0 => Some(HitCondition::Equal(1 + rng.below(3))),
         1 => Some(HitCondition::AtLeast(rng.below(4))),
@@ -650,7 +659,7 @@ fn run_mon_case(n: u64, rng: &mut Rng, nops: usize, watchdog: Duration, out: &mu
                     Ok(o) => {
                         out.line("act cont -");
                         out.line(format!("impl {o}"));
-                        let k = 4 + rng.below(40) as usize;
+                        let k = 10 + rng.below(200) as usize;
                         let hooks: Vec<Hook> = (0..k)
                             .map(|_| {
                                 let mut h = walk.next_hook(rng);
@@ -660,11 +669,11 @@ fn run_mon_case(n: u64, rng: &mut Rng, nops: usize, watchdog: Duration, out: &mu
                                 h
                             })
                             .collect();
-                        let spin = match rng.below(4) {
+                        let spin = match rng.below(8) {
                             0 => 0,
-                            1 => rng.below(200),
-                            2 => rng.below(3000),
-                            _ => rng.below(30000),
+                            1 => rng.below(500),
+                            2..=4 => rng.below(8000),
+                            _ => rng.below(40000),
                         };
                         for h in &hooks {
                             out.line(format!("fh {}", hook_text(h)));
